@@ -32,8 +32,14 @@ Clause(r) == Pick(<<
       \E i \in 1..Len(r.inprog) : \E j \in 1..Len(r.post) :
          r.post[j].key = r.inprog[i].step \o "/" \o r.inprog[i].uid /\ r.post[j].first_retry < r.inprog[i].retry>>,
   <<"retry_budget_exceeded_across_resume", \E i \in 1..Len(r.fails) : r.fails[i].n > Budget(r.fails[i].step)>>,
-  <<"result_differs", r.res.kind # r.ref.kind \/ r.res.detail # r.ref.detail>>,
-  <<"state_store_differs", r.res.store # r.ref.store>> >>)
+  \* the same two clauses, named by the circumstance at the snapshot so that a recorded finding about one circumstance
+  \* never hides a difference under another
+  <<"result_differs_with_delayed_retry_pending", r.pending_retry /\ (r.res.kind # r.ref.kind \/ r.res.detail # r.ref.detail)>>,
+  <<"state_store_differs_with_delayed_retry_pending", r.pending_retry /\ r.res.store # r.ref.store>>,
+  <<"result_differs_with_running_recovery_history", r.inprog_recovered /\ (r.res.kind # r.ref.kind \/ r.res.detail # r.ref.detail)>>,
+  <<"state_store_differs_with_running_recovery_history", r.inprog_recovered /\ r.res.store # r.ref.store>>,
+  <<"result_differs", ~r.pending_retry /\ ~r.inprog_recovered /\ (r.res.kind # r.ref.kind \/ r.res.detail # r.ref.detail)>>,
+  <<"state_store_differs", ~r.pending_retry /\ ~r.inprog_recovered /\ r.res.store # r.ref.store>> >>)
 
 Init == tid \in 1..Len(T.traces) /\ l = 1 /\ verdict = "ok"
 Step == /\ verdict = "ok" /\ l <= Len(Tr.log)
